@@ -97,6 +97,30 @@ func GenCrash(seed uint64, prop string, tier string) *Case {
 		acts = append(acts[:at], append([]Action{{Kind: "txn", Txn: t}}, acts[at:]...)...)
 		c.Clients[0].Actions = acts
 	}
+	// rarely one transaction with a value above 1 MiB among small writes (sanity bounds, size fields, buffers)
+	if r.Intn(16) == 0 && len(c.Clients[0].Actions) > 0 {
+		vg := &valGen{client: 8}
+		t := &TxnProg{ID: 9500, Mode: "update", End: "commit"}
+		for i, k := range c.Keys {
+			if i >= 3 {
+				break
+			}
+			id, _ := vg.next(&r, 9500)
+			pad := 3 + r.Intn(20)
+			if i == 1 {
+				pad = 1100000 + r.Intn(700000)
+			}
+			t.Ops = append(t.Ops, Op{K: "set", Key: k, Val: id, Pad: pad})
+		}
+		acts := c.Clients[0].Actions
+		at := r.Intn(len(acts) + 1)
+		acts = append(acts[:at], append([]Action{{Kind: "txn", Txn: t}}, acts[at:]...)...)
+		c.Clients[0].Actions = acts
+		// keep the memtable large enough now and then, so that the record stays in the wal for a while
+		if r.Intn(2) == 0 {
+			c.Configs[0].MemtableByteThreshold = 4 << 20
+		}
+	}
 	c.Crash = &CrashPlan{Depth: 1, PostTxns: 1 + r.Intn(3)}
 	if r.Intn(3) == 0 {
 		c.Crash.Depth = 2 + r.Intn(2)
@@ -174,6 +198,7 @@ func checkCrash(res *RunResult, prop string) *Eval {
 				seed := mixSeed(c.Seed, 7919*len(img.Path)+img.Path[len(img.Path)-1]*31+vi)
 				rr := RecoverImage(curT, c, v, seed, wantNested && vi == 0)
 				ev.Evaluations++
+				ev.AuxHash = (ev.AuxHash ^ rr.Sim.Hash) * 0x100000001b3
 				if rr.Sim.Leaked > 0 {
 					ev.Probes["leaked_goroutines"] += rr.Sim.Leaked
 				}
@@ -199,6 +224,9 @@ func checkCrash(res *RunResult, prop string) *Eval {
 						}
 						if sz > 65536 {
 							ev.Probes["crash_with_inflight_commit_over_64KiB"]++
+						}
+						if sz > 1<<20 {
+							ev.Probes["crash_with_inflight_commit_over_1MiB"]++
 						}
 					}
 					ev.Probes["crash_with_inflight_commit"]++
